@@ -401,7 +401,6 @@ func init() {
 		"crypto/aes.NewCipher":          intrHarnessRequired("crypto/aes.NewCipher"),
 		"crypto/cipher.NewCBCDecrypter": intrHarnessRequired("crypto/cipher.NewCBCDecrypter"),
 		"crypto/cipher.NewCBCEncrypter": intrHarnessRequired("crypto/cipher.NewCBCEncrypter"),
-		"github.com/djherbis/times.Get": intrHarnessRequired("times.Get"),
 	}
 }
 
